@@ -16,6 +16,7 @@ void begin_op(long fail_at); // per-operation allocation counter := 0; fail the 
 void end_op();
 bool fault_fired(); // did the planned allocation failure actually happen in this op
 bool big_refused(); // was a request above the simulated machine size refused in this op
+bool refuse_if_beyond_machine(size_t size); // for the over-aligned forms of operator new, which are not tracked otherwise
 size_t op_allocs(); // in-scope allocations performed by this op so far
 void enter(); // SUT scope (nestable)
 void leave();
